@@ -2,6 +2,7 @@ package sim
 
 import (
 	"strconv"
+	"strings"
 	"time"
 
 	"verif/sim/model"
@@ -98,7 +99,7 @@ var engineMinimisers = map[string]func(rf *RunFile, prop string, budget time.Dur
 // opMutations lists simplifications of one op.
 func opMutations(op *Op) []func(*Op) {
 	var ms []func(*Op)
-	if len(op.Docs) > 1 {
+	if len(op.Docs) > 1 && !strings.HasPrefix(op.K, "Idx") && !strings.HasPrefix(op.K, "Cur") {
 		for i := range op.Docs {
 			i := i
 			ms = append(ms, func(o *Op) { o.Docs = append(append([]val.V{}, o.Docs[:i]...), o.Docs[i+1:]...) })
